@@ -104,6 +104,12 @@ def shard_fn(shard, nshards, seed, tier, exe, ntrees, ndoubles):
                 if c0 in "iu":
                     nv = rng.choice([0, -1, 1 << 53, -(1 << 63), (1 << 63) - 1, rng.getrandbits(62)])
                     cm = ["SET 5 i64 %d" % nv]
+                    cur = get_at(value, path)
+                    if isinstance(cur, int) and not isinstance(cur, bool) and abs(cur) < (1 << 62) and rng.random() < 0.4:
+                        # ... or through json_object_int_inc (another way of changing an integer in place)
+                        d = rng.choice([1, -1, 5, -7, 1000])
+                        nv, cm = cur + d, ["INC 5 %d" % d]
+                        sh.count("trees.integer_incremented_in_place_before_serializing")
                 elif c0 in "dD":
                     nv = rng.choice([0.5, -2.0, 1e300, 5e-324, 123456789.125, 0.1, 3.0, 0.0, -0.0])
                     cur = get_at(value, path)
